@@ -9,6 +9,7 @@ replace github.com/ory/keto/proto => /repo/proto
 replace github.com/gobuffalo/pop/v6 => github.com/ory/pop/v6 v6.2.1-0.20241121111754-e5dfc0f3344b
 
 require (
+	github.com/anishathalye/porcupine v1.3.0
 	github.com/gofrs/uuid v4.4.0+incompatible
 	github.com/mattn/go-sqlite3 v1.14.24
 	github.com/ory/keto v0.0.0
